@@ -35,12 +35,14 @@ LEVEL_TEXT = ("PARTIAL (the regex -> word-matcher step is modelled, not proved).
               "switchport); intf_masklength_roundtrip; secondaries_roundtrip -- the secondary loop collects exactly the described (address, "
               "prefix length) pairs; trunk_vlans_roundtrip -- empty for a non-switchport / mode access, else 1..4094 (no line or 'all'), empty "
               "('none'), or the sorted union of the written parts through C14's Range.parse; port_type_roundtrip; ordinal_list_roundtrip -- "
-              "through C15's Ccp.Intf.parse and name_roundtrip (one-word names); header_roundtrip -- name and dispatch to IOSIntfLine; "
+              "through C15's Ccp.Intf.parse and name_roundtrip (one-word names); subinterface_number_roundtrip / interface_number_roundtrip -- the "
+              "two lazy regex groups give the whole number word / the number word without the trailing .sub, for prefix+digits+rest names "
+              "with any accepted class-word tail; header_roundtrip -- name and dispatch to IOSIntfLine; "
               "route_roundtrip / route_accessors_roundtrip -- for every (vrf?, prefix, mask, intf?, nh?, global?, ad?, name?, permanent|track?, "
               "tag?) with at least one of intf/nh the slot consumer standing for _RE_IP_ROUTE returns every described value and the defaults; "
               "route_f25_witness; factory_transparent -- texts, parents and child lists are a function of (syntax flag, delimiters, ignore_blank, "
-              "lines) only: Ccp.Tree.parse has no class/factory input. NOT proved, correspondence only: interface_number, subinterface_number, "
-              "ordinal_list with a class word, add/remove/except lines of trunk_vlans_allowed, unrelated lines starting with 'switchport'. The "
+              "lines) only: Ccp.Tree.parse has no class/factory input. NOT proved, correspondence only: "
+              "ordinal_list with a class word, interface_number of '.sub:chan' names, add/remove/except lines of trunk_vlans_allowed, unrelated lines starting with 'switchport'. The "
               "model is tied to IOSIntfLine / IOSRouteLine / CiscoConfParse(factory=True) by differential runs on every check, incl. whitespace "
               "variants and malformed lines.")
 LEVEL_NOTE = ("Trusted: Lean kernel; axioms propext/Classical.choice/Quot.sound only; the correspondence harness. Modelled, not proved: each "
